@@ -177,7 +177,7 @@ func c16Carousel(c *Ctx) {
 			candAlloc = ld.X
 		}
 		// the index is rnd.Int() % len(candidates) with rnd seeded by SharedRandomSeed()+round
-		ik := fl.K.Key(ia.Index)
+		ik := expandedKey(fl, ia.Index, u)
 		if !(strings.HasPrefix(ik, "((*math/rand.Rand).Int(math/rand.New(math/rand.NewSource(((*hs/core.RuntimeConfig).SharedRandomSeed(") && strings.Contains(ik, " + p1))") && strings.Contains(ik, "% builtin len(")) {
 			bad = append(bad, "draw index is "+shortVal(ik))
 		}
@@ -339,7 +339,7 @@ func c16Reputation(c *Ctx) {
 			}
 		}
 		if strings.HasSuffix(name, "weightedrand.Chooser).PickSource") || strings.HasSuffix(name, "weightedrand.Chooser.PickSource") {
-			k := fl.K.Key(call.Call.Args[len(call.Call.Args)-1])
+			k := expandedKey(fl, call.Call.Args[len(call.Call.Args)-1], in)
 			if strings.HasPrefix(k, "math/rand.New(math/rand.NewSource(((*hs/core.RuntimeConfig).SharedRandomSeed(") && strings.Contains(k, " + p1))") {
 				okSeed = true
 			}
